@@ -251,7 +251,10 @@ func numericAsDouble(v Val) (float64, bool) {
 	return 0, false
 }
 
-func sameFloat(a, b float64) bool { return a == b || (a != a && b != b) }
+// sameFloat: bit-identical (so -0 and +0 differ), any NaN equals any NaN
+func sameFloat(a, b float64) bool {
+	return math.Float64bits(a) == math.Float64bits(b) || (a != a && b != b)
+}
 
 // c06Expect computes the expected outcome of op(a,b) under manager mgr.
 // It returns the expected value, the status, and a note for unspecified zones.
